@@ -56,6 +56,9 @@ func (s *SessionService) CreateSession(sc *uasc.SecureChannel, r ua.Request, req
 	sig, alg, err := sc.NewSessionSignature(req.ClientCertificate, req.ClientNonce)
 	if err != nil {
 		log.Printf("error creating session signature")
+		if err == ua.StatusBadCertificateInvalid {
+			return nil, ua.StatusBadCertificateInvalid // the client certificate has no RSA key
+		}
 		return nil, ua.StatusBadInternalError
 	}
 
